@@ -3,8 +3,8 @@ import re
 from vlib import core, drivers
 
 PROP = 'C08'
-MODULES = ['PistacheModel.Props.C08']
-THEOREMS = ['Pistache.Lifecycle.Props.' + t for t in ('inv_run', 'balanced', 'released_once', 'gone_not_registered', 'stays_gone')]
+MODULES = ['PistacheModel.Props.C08', 'PistacheModel.Props.C08Tables']
+THEOREMS = ['Pistache.Lifecycle.Props.' + t for t in ('inv_run', 'balanced', 'released_once', 'gone_not_registered', 'stays_gone', 'write_failure_releases_nothing', 'tinv_run', 'tables_follow_peers', 'all_gone_nothing_left', 'closed_exactly_once', 'base_refines')]
 
 def script(rnd, tround):
     """one connection: requests, maybe a partial request, then a way to leave; None tround = no idle round"""
@@ -35,7 +35,7 @@ BAD = ('ASAN', 'UBSAN', 'HANG', 'CRASH', 'TERMINATE', 'MISSING', 'bad-op', 'conn
 def oracle(ln, out):
     """direct statement of C08 on the handler's call log"""
     if any(x in out for x in BAD): return ('crash', 'implementation aborted/hung: ' + out[:120])
-    m = re.fullmatch(r'conns=(\S+) fds=(-?\d+) serve=(\d)', out)
+    m = re.fullmatch(r'conns=(\S+) fds=(-?\d+) serve=(\d) tables=(\d+)/(\d+)/(\d+)', out)
     if not m: return 'unexpected output ' + out[:100]
     scripts = ln.split()[3].split(',')
     for i, c in enumerate(m.group(1).split(',')):
@@ -47,6 +47,8 @@ def oracle(ln, out):
             return ('order', 'connection %d (%s): call sequence %s (input after the disconnection or before the connection)' % (i, scripts[i], shape))
     if int(m.group(2)) != 0: return ('leak', '%s descriptor(s) more than the idle baseline after all clients are gone' % m.group(2))
     if m.group(3) != '1': return ('stuck', 'a new connection could not be served afterwards')
+    if (m.group(4), m.group(5), m.group(6)) != ('0', '0', '0'):
+        return ('leak', 'after all clients are gone the workers still hold %s peer entries, %s pending-write entries and %s timers' % (m.group(4), m.group(5), m.group(6)))
     return None
 
 def classify(ln, out):
@@ -55,7 +57,7 @@ def classify(ln, out):
 
 RULE = ('1..6 (thorough 12) concurrent connections against a live endpoint with 1..3 workers, each following a script over {full request, partial request, orderly close, half-close (shutdown WR), reset (SO_LINGER 0), abort in the middle of a request while the worker is busy (data and FIN in one readiness event), leaving (close/reset/end) while an 8 MB answer is blocked in the write queue, leaving by reset or close while the handler is still busy and then flushes a streamed answer from inside onInput (the writes fail with ECONNRESET/EPIPE), staying silent with a blocked answer until the idle time-out has fired several times and then reading everything (answer, 408, close), '
         'silence until the 600 ms idle time-out, left open}; 40 connections served one after the other; the handler\'s onConnection/onInput/onDisconnection calls per connection (keyed by the client port), '
-        'the number of entries in /proc/self/fd against the idle baseline and the ability to serve as many new connections as there were (they take over the released descriptor numbers; each must get exactly its own answer) are compared with the lifecycle model and checked by a direct oracle. non-trivial = distinct (workers, script set, outcome)')
+        'the number of entries in /proc/self/fd against the idle baseline, the sizes of the workers\' own tables (Transport::peers, toWrite, timers) once every client is gone and the ability to serve as many new connections as there were (they take over the released descriptor numbers; each must get exactly its own answer) are compared with the lifecycle model and checked by a direct oracle. non-trivial = distinct (workers, script set, outcome)')
 ASSUME = ['consecutive onInput calls are collapsed (how many reads deliver a request is up to TCP)', 'idle rounds last time-out + 1300 ms: every connection still open then is expired by the server',
           'descriptor numbers are reused by the OS; the model identifies connections by an id that is never reused']
 
